@@ -42,6 +42,8 @@ fn config_python_blas() {
     // for python builds that do not link to one of the blas/lapack
     // libraries provided by blas-src and lapack-src.
     println!("cargo:rustc-check-cfg=cfg(sdp_pyblas)");
+    // guard for verification-only hooks (off in all normal builds)
+    println!("cargo:rustc-check-cfg=cfg(oxfordcontrol_clarabel_rs_verif)");
 
     if cfg!(not(feature = "python")) {
         return;
